@@ -1,0 +1,34 @@
+//go:build verif
+
+// Machine-checked contracts for package id (comment-only; read by /verif/gocv).
+
+package id
+
+// Interface contract: every draw is one Call event carrying the generator and the identifier drawn
+// (so that callers can state "this id is the result of exactly one New()").
+//@ func IGenerator.New
+//@   assumed
+//@   modifies nothing
+//@   emits Call(code("id|IGenerator.New"), this, result)
+//@   ensures tag(result) != 0
+
+//@ spec func fallbackStr(prefix string, n int) string = "fallback-" + prefix + "-" + itoa(n)
+
+// Identifiers of one fallback generator: the n-th draw returns fallbackStr(prefix, n); the counter is advanced by
+// one atomic add, which is the only shared step (so concurrent draws obtain different n).
+//@ func (*fallbackGenerator).New
+//@   prop C20
+//@   modifies g.counter
+//@   ensures [counter-advanced-by-one] g.counter == old(g.counter) + 1
+//@   ensures [nth-identifier] is(result, fallbackId) && result.(fallbackId).value == fallbackStr(g.prefix, old(g.counter) + 1)
+//@   ensures g.prefix == old(g.prefix)
+
+//@ lemma fallbackIdsDistinct(p string, a int, b int)
+//@   prop C20
+//@   requires fallbackStr(p, a) == fallbackStr(p, b)
+//@   ensures a == b
+
+//@ func NewFallbackGenerator
+//@   prop C20
+//@   modifies nothing
+//@   ensures tag(result) != 0 && is(result, *fallbackGenerator) && fresh(result.(*fallbackGenerator)) && result.(*fallbackGenerator).counter == 0
